@@ -23,6 +23,7 @@ ASSUMPTIONS = [
     "a flagged call's result is never indexed / unpacked (None[0] raises in plain Python too) - by construction",
     "a nested DAG called with twz_active contains no flagged calls itself (documented RuntimeError) and does not index its own results",
 ]
+ATHERIS = True  # thorough tier: 4 of the 16 shards are coverage-guided (vlib/fuzzshard.py)
 BUDGET = {"quick": {"shards": 4, "seconds": 40}, "thorough": {"shards": 16, "seconds": 420}}
 
 
